@@ -445,12 +445,16 @@ func (e *env) unitAt(ctx context.Context, commit bool, stmts int, id int64) erro
 }
 
 // phase2 delivers one pending phase-two request through the real client handler
-func (e *env) phase2(commit bool) bool {
+func (e *env) phase2(commit bool) bool { return e.phase2n(commit, 1) }
+
+// phase2n delivers the phase-two request of one pending branch `times` times (the coordinator
+// repeats a request whose answer it did not see: duplicate / retried deliveries)
+func (e *env) phase2n(commit bool, times int) bool {
 	b, ok := e.co.takeBranch()
 	if !ok {
 		return false
 	}
-	atomic.AddInt64(&e.p2sent, 1)
+	atomic.AddInt64(&e.p2sent, int64(times))
 	if os.Getenv("STRESS_DEBUG") != "" {
 		fmt.Fprintf(os.Stderr, "PHASE2 commit=%v type=%v res=%s\n", commit, b.BranchType, b.ResourceId)
 	}
@@ -458,7 +462,9 @@ func (e *env) phase2(commit bool) bool {
 	if !commit {
 		body = message.BranchRollbackRequest{AbstractBranchEndRequest: b.AbstractBranchEndRequest}
 	}
-	sgetty.GetGettyClientHandlerInstance().OnMessage(nil, message.RpcMessage{ID: int32(b.BranchId), Body: body})
+	for i := 0; i < times; i++ {
+		sgetty.GetGettyClientHandlerInstance().OnMessage(nil, message.RpcMessage{ID: int32(b.BranchId), Body: body})
+	}
 	return true
 }
 
@@ -700,6 +706,15 @@ func child(args map[string]string) {
 			e.phase2(false)
 			return nil
 		}},
+		{"at_phase2_dup", "rollback", 0, 0, func(i int) error {
+			// the same BranchRollback delivered three times: the first finds no undo log and leaves the
+			// marker row, the repeats find the marker
+			if err := e.unitAt(ctx, true, 1, int64(i+1)); err != nil {
+				return err
+			}
+			e.phase2n(false, 3)
+			return nil
+		}},
 		{"select", "commit", 0, 0, func(i int) error { return e.unitSelect(rng) }},
 		{"meta", "commit", 0, 1, func(i int) error { return e.unitMeta(ctx, rng, fmt.Sprintf("t_acc_%d_%d", seed, i)) }},
 		{"meta", "commit", 0, 0, func(i int) error { return e.unitMeta(ctx, rng, "t_user") }},
@@ -803,7 +818,7 @@ func child(args map[string]string) {
 				case 9:
 					runUnit(w, "meta", func() error { return e.unitMeta(ctx, r, fmt.Sprintf("t_%d", r.Intn(6))) })
 				case 10:
-					runUnit(w, "phase2", func() error { e.phase2(commit); return nil })
+					runUnit(w, "phase2", func() error { e.phase2n(commit, 1+r.Intn(3)); return nil })
 				default:
 					runUnit(w, "hooks", func() error {
 						// the registration API that takes the hook lock, used while transactions run
